@@ -69,6 +69,18 @@ func (f *fragment) Close() error {
 	return f.storage.Close()
 }
 
+// isClosed reports whether the fragment has been closed. The janitor closes an empty
+// fragment and removes it from its partition. A writer that loaded the fragment before
+// that and waited for its lock must not write into it.
+func (f *fragment) isClosed() bool {
+	select {
+	case <-f.ctx.Done():
+		return true
+	default:
+	}
+	return false
+}
+
 func (f *fragment) Name() string {
 	return "DMap"
 }
